@@ -74,6 +74,9 @@ var tableAges = []int{1, 14, 15, 16, 60, 600}
 
 func genTable(t *rapid.T, bias string) TableSc {
 	sc := TableSc{Root: genBytesN(t, 20, "root"), Dual: rapid.Bool().Draw(t, "dual")}
+	if arr20(sc.Root) == ([20]byte{}) {
+		sc.Root[19] = 1 // an all-zero NodeId means "generate one" to the library (shrinking tends to produce it)
+	}
 	sc.Security = rapid.IntRange(0, 3).Draw(t, "security") == 0
 	root := arr20(sc.Root)
 	nhot := rapid.IntRange(1, 2).Draw(t, "nhot")
@@ -922,6 +925,11 @@ func runTable(sc TableSc, c *kit.Case, clause string) *kit.Violation {
 		opts.Starting = append(opts.Starting, sc.Peers[i].UDP())
 	}
 	m.sv = newSrv(opts)
+	if m.sv.ID != m.root {
+		// replayed or hand-written scenario with a zero root: the node chose its own ID
+		m.root = m.sv.ID
+		m.ref.root = m.root
+	}
 	closed := false
 	defer func() {
 		if !closed {
